@@ -16,6 +16,8 @@ HOOKS_RES = ("on_error", "post_execute", "post_save")
 HOOKS_ALL = ("pre_send", "post_send", "pre_execute", "on_error", "post_execute", "post_save")
 KICK_COQ = {"ok": "KickOk", "dumps_fail": "DumpsFail", "kick_fail": "KickFail", "kick_fail_broker": "KickFail",
             "kick_fail_sub": "KickFail", "kick_fail_send": "KickFail"}
+ACKABLE = ("sync", "async", "future", "task", "obj")     # styles of the acknowledge callable ("none" = plain bytes)
+AW_STYLES = ("future", "task", "obj", "coro")           # hooks: plain functions returning a non-`async def` awaitable
 ACK_COQ = {"when_received": "AckReceived", "when_executed": "AckExecuted", "when_saved": "AckSaved", None: "AckSaved"}
 
 
@@ -127,7 +129,7 @@ def c_cfg(case, M, lt):
     lab = lt.norm(M["labels"])
     dur = sum(s for s in M["segs"] if s) * 1000
     return "(mkcfg %s %s %s %s st %s %s %s %s %s %s %s %s %s)" % (
-        kind, c_msg(M["id"], lab, lt.tmo(lab)), C.cb(M["ackable"] in ("sync", "async")), ACK_COQ[case.get("ack_type")],
+        kind, c_msg(M["id"], lab, lt.tmo(lab)), C.cb(M["ackable"] in ACKABLE), ACK_COQ[case.get("ack_type")],
         {"none": "DNone", "ok": "DOk", "fail": "DFail"}[M["dep"]], C.cb(case["propagate"]), C.cb(M["style"] == "async"),
         C.cz(dur), c_bout(M["out"]), C.cb(M.get("tie", True)), C.cb(case.get("executor") == "eager"),
         C.cb(M.get("save_ok", True)),
@@ -138,9 +140,23 @@ def tid(s):
     return int(s[2:]) if isinstance(s, str) and s.startswith("id") and s[2:].isdigit() else 4000
 
 
-def c_eff(ev, lt):
-    """one log entry (without its `who`) -> Coq eff literal, or None for entries that are not model effects"""
+UNMATCHABLE = "(FSent 4999)"      # an effect no model sequence contains
+
+
+def c_eff(ev, lt, cx=None):
+    """one log entry (without its `who`) -> Coq eff literal, or None for entries that are not model effects.
+    cx (send side): the broker / stack the send must go through - hook indices are logged as 100 * broker + position,
+    the model numbers the positions of that one stack"""
     k = ev[0]
+    if cx is not None:
+        if k == "hook":
+            if ev[2] // 100 != cx["b"]:
+                return UNMATCHABLE        # a middleware of another broker fired
+            ev = ev[:2] + [ev[2] % 100] + ev[3:]
+        if k in ("kick", "dumps") and len(ev) > 3 and ev[3] != cx["b"]:
+            return UNMATCHABLE            # kicked into / serialised by another broker
+    if k in ("save.stale", "formatter.stale"):
+        return UNMATCHABLE                # the receiver used something that is not the broker's (any more)
     if k == "parse.fail":
         return "FParseFail"
     if k == "unknown":
@@ -154,7 +170,7 @@ def c_eff(ev, lt):
             return "(FHookR %s %s %s %s %s)" % (HOOK_COQ[name], C.cn(i), m, r, x)
         return "(FHookM %s %s %s)" % (HOOK_COQ[name], C.cn(i), m)
     if k == "base":      # a hook the class does not override was invoked: an effect the model never has
-        return "(FHookM %s %s (mkmsg 4999 4999 None))" % (HOOK_COQ[ev[1]], C.cn(max(ev[2], 0)))
+        return "(FHookM %s %s (mkmsg 4999 4999 None))" % (HOOK_COQ[ev[1]], C.cn(max(ev[2], 0) % 100))
     if k in ("hook.exit", "ack.exit"):
         return None
     simple = {"ack": "FAck", "exec.begin": "FExecBegin", "exec.end": "FExecEnd", "dep.open": "FDepOpen",
@@ -238,8 +254,9 @@ def c_case(case, obs):
     lt = LabelTable(case)
     per, glob, late, stray = split_log(case, obs["log"])
     g = []
+    cxs = send_ctx(case) if case["type"] == "send" else None
     for w, ev in abstract_d10(case, per, glob):
-        t = c_eff(ev, lt)
+        t = c_eff(ev, lt, cxs[w] if cxs else None)
         if t is not None:
             g.append("(%s, %s)" % (C.cn(w), t))
     for e in stray:   # an event nobody owns: make the run unmatchable
@@ -250,11 +267,15 @@ def c_case(case, obs):
             det = M["style"] == "sync" and effective_tmo(case, M, lt) is not None
             cs.append("(%s, %s)" % (c_cfg(case, M, lt), C.cb(det)))
         return "(let st := %s in (%s, %s))" % (c_stack(case["mws"], lt), C.clist(cs), C.clist(g))
-    cs = []
-    for S in case["sends"]:
+    cs, keys, sts = [], [], []
+    for S, cx in zip(case["sends"], cxs):
         k = KICK_COQ[S.get("kick", "ok")]
-        cs.append("(%s, %s)" % (c_msg(S["id"], lt.norm(S["labels"]), lt.tmo(S["labels"])), k))
-    return "(let st := %s in (st, %s, %s))" % (c_stack(case["mws"], lt), C.clist(cs), C.clist(g))
+        key = ckey(cx["stack"])
+        if key not in keys:
+            keys.append(key)
+            sts.append(c_stack(cx["stack"], lt))
+        cs.append("(%s, %s, %s)" % (C.cn(keys.index(key)), c_msg(S["id"], lt.norm(S["labels"]), lt.tmo(S["labels"])), k))
+    return "(%s, %s, %s)" % (C.clist(sts), C.clist(cs), C.clist(g))
 
 
 COQ_HEADER = """From Coq Require Import ZArith List Bool Arith. Import ListNotations.
@@ -277,11 +298,15 @@ Fixpoint bad (i : nat) (l : list (list (pcfg * bool) * list (nat * eff))) : list
     (if a && b then [] else [i]) ++ bad (S i) t end.
 Eval vm_compute in bad 0 cases."""
 
-COQ_BODY_SEND = """Definition chk (x : list mw * list (msg * kickres) * list (nat * eff)) : bool * bool :=
-  let '(st, cs, g) := x in
-  (tags_in_range (length cs) g && all_idx (fun i c => seq_eqb (project i g) (kiq st (fst c) (snd c))) 0 cs,
-   all_idx (fun i c => let l := project i g in C10_check l && sortedb (map (phase AckSaved) l)) 0 cs).
-Fixpoint bad (i : nat) (l : list (list mw * list (msg * kickres) * list (nat * eff))) : list nat :=
+# a send case: the distinct middleware stacks, per send (index of the stack that is its broker's when it is sent,
+# message, kick result), tagged log.  The model is stateless per send: Pipeline.kiq with that stack.
+COQ_BODY_SEND = """Definition stack_of (sts : list (list mw)) (c : nat * msg * kickres) : list mw := nth (fst (fst c)) sts [].
+Definition chk (x : list (list mw) * list (nat * msg * kickres) * list (nat * eff)) : bool * bool :=
+  let '(sts, cs, g) := x in
+  (tags_in_range (length cs) g
+   && all_idx (fun i c => seq_eqb (project i g) (kiq (stack_of sts c) (snd (fst c)) (snd c))) 0 cs,
+   all_idx (fun i (c : nat * msg * kickres) => let l := project i g in C10_check l && sortedb (map (phase AckSaved) l)) 0 cs).
+Fixpoint bad (i : nat) (l : list (list (list mw) * list (nat * msg * kickres) * list (nat * eff))) : list nat :=
   match l with [] => [] | x :: t =>
     let (a, b) := chk x in
     (if a && b then [] else [i]) ++ bad (S i) t end.
@@ -322,8 +347,9 @@ Definition the_case := %s.
         body += "Eval vm_compute in (let (cs, g) := the_case in map (fun ic => fdiff 0 (project (fst ic) g) " \
                 "(model_obs (fst (snd ic)))) (combine (seq 0 (length cs)) cs)).\n"
     else:
-        body += "Eval vm_compute in (let '(st, cs, g) := the_case in map (fun ic => fdiff 0 (project (fst ic) g) " \
-                "(kiq st (fst (snd ic)) (snd (snd ic)))) (combine (seq 0 (length cs)) cs)).\n"
+        body += "Eval vm_compute in (let '(sts, cs, g) := the_case in map (fun ic => fdiff 0 (project (fst ic) g) " \
+                "(kiq (nth (fst (fst (snd ic))) sts []) (snd (fst (snd ic))) (snd (snd ic)))) " \
+                "(combine (seq 0 (length cs)) cs)).\n"
     rc, out = C.coq_eval_raw(ctx, "diff", COQ_HEADER + "\n" + body)
     return out
 
@@ -336,10 +362,11 @@ def coq_show(ctx, case, obs):
         for i, M in enumerate(case["msgs"]):
             body += "Eval vm_compute in (%d, callback %s).\n" % (i, c_cfg(case, M, lt))
     else:
-        body = "Definition st := %s.\n" % c_stack(case["mws"], lt)
-        for i, S in enumerate(case["sends"]):
+        body = ""
+        for i, (S, cx) in enumerate(zip(case["sends"], send_ctx(case))):
             k = KICK_COQ[S.get("kick", "ok")]
-            body += "Eval vm_compute in (%d, kiq st %s %s).\n" % (i, c_msg(S["id"], lt.norm(S["labels"]), lt.tmo(S["labels"])), k)
+            body += "Eval vm_compute in (%d, kiq %s %s %s).\n" % (
+                i, c_stack(cx["stack"], lt), c_msg(S["id"], lt.norm(S["labels"]), lt.tmo(S["labels"])), k)
     rc, out = C.coq_eval_raw(ctx, "show", COQ_HEADER + "\n" + body)
     return out
 
@@ -348,6 +375,46 @@ def coq_show(ctx, case, obs):
 def class_hooks(case, name):
     """[(index, spec)] of the middlewares whose CLASS overrides `name`, in registration order"""
     return [(i, s[name]) for i, s in enumerate(case["mws"]) if s.get(name) is not None and not s[name].get("inst")]
+
+
+def send_ctx(case):
+    """per send: b = the broker its kicker points at when it is sent, stack = the middleware specs registered on that
+    broker at that moment (scenario arithmetic only: with_broker / add_middlewares steps of the chain so far)"""
+    sends = case["sends"]
+    stacks = [list(case["mws"])] + [list(x) for x in case.get("brokers") or []]
+    adds = any((S.get("op") or {}).get("add_mws") for S in sends)
+    if adds and (len({S.get("chain") for S in sends}) != 1 or sends[0].get("chain") is None):
+        raise ValueError("middlewares are added between sends only in single-chain cases")
+    cur, out = {}, []
+    for S in sends:
+        c = S.get("chain")
+        if c is None or c not in cur:
+            b = S.get("broker", 0)
+        else:
+            op = S.get("op") or {}
+            b = op["broker"] if op.get("broker") is not None else cur[c]
+            if op.get("add_mws"):
+                stacks[b] = stacks[b] + list(op["add_mws"])
+        if c is not None:
+            cur[c] = b
+        out.append(dict(b=b, stack=list(stacks[b])))
+    return out
+
+
+def final_stacks(case):
+    if case["type"] != "send":
+        return [case["mws"]]
+    stacks = [list(case["mws"])] + [list(x) for x in case.get("brokers") or []]
+    for S, cx in zip(case["sends"], send_ctx(case)):
+        if len(cx["stack"]) > len(stacks[cx["b"]]):
+            stacks[cx["b"]] = cx["stack"]
+    return stacks
+
+
+def stack_hooks(cx, name):
+    """[(logged index, spec)] of the middlewares of the send's broker whose CLASS overrides `name`"""
+    return [(100 * cx["b"] + i, s[name]) for i, s in enumerate(cx["stack"])
+            if s.get(name) is not None and not s[name].get("inst")]
 
 
 def effective_labels_idx(case, M):
@@ -382,7 +449,7 @@ def oracle_c02(case, per, late, fail):
         if M["kind"] != "ok":
             continue                      # out of the statement's scope (C01 covers them)
         sig = dict(msg=i, ack_type=at)
-        if M["ackable"] not in ("sync", "async"):
+        if M["ackable"] not in ACKABLE:
             continue
         completed = any(e[0] == "done" for e in evs)
         if len(acks) > 1:
@@ -442,6 +509,10 @@ def oracle_c07(case, per, late, fail):
         completed = any(e[0] == "done" for e in evs)
         hook_crash = any(e[0] == "crash" and e[1] == "CustomError" for e in evs)
         saves = [e for e in evs if e[0] == "save.enter"]
+        if any(e[0] == "save.stale" for e in evs):
+            # "stored under the message's task id": in the result backend of the broker, where clients look it up
+            fail("the result was handed to a result backend that is not the broker's current one", sig, evs)
+            continue
         if len(saves) > 1:
             fail("more than one result stored for one execution", sig, evs)
             continue
@@ -476,7 +547,7 @@ def oracle_c07(case, per, late, fail):
         nores_certain = subst or all(w == (True, None, E_NORESULT) for w in want)
         # "a failing result backend never prevents the message from completing processing": processing of an ackable
         # message under when_saved is complete only once it has been acknowledged
-        if any(e[0] == "save.raise" for e in evs) and M["ackable"] in ("sync", "async") \
+        if any(e[0] == "save.raise" for e in evs) and M["ackable"] in ACKABLE \
                 and (case.get("ack_type") or "when_saved") == "when_saved" and not any(e[0] == "ack" for e in evs):
             fail("result backend failure prevented the message from completing processing (never acknowledged)", sig, evs)
             continue
@@ -519,8 +590,10 @@ def oracle_c10_recv(case, per, late, fail):
         if bad_await:
             fail("a hook was not run to completion before the next step", sig, evs)
             continue
-        crashed = any(e[0] == "crash" for e in evs)
         hook_crash = any(e[0] == "crash" and e[1] == "CustomError" for e in evs)
+        # a raising hook (outside the quantifier) ends the run early: the hooks fired so far must be a prefix.  Any other
+        # way callback can raise (raise_err=True with a failing backend) comes after every hook that is due.
+        crashed = hook_crash or (any(e[0] == "crash" for e in evs) and is_d10(case, sig))
         seq = {n: [e[2] for e in evs if e[0] == "hook" and e[1] == n] for n in HOOKS_ALL}
         want = {n: [k for k, _ in class_hooks(case, n)] for n in HOOKS_ALL}
         raised = not any(e[0] == "body.end" and e[1] == "ret" for e in evs)   # dependency failure / raise / timeout
@@ -572,17 +645,26 @@ def oracle_c10_recv(case, per, late, fail):
 
 def oracle_c10_send(case, per, fail):
     lt = LabelTable(case)
+    cxs = send_ctx(case)
     for i, S in enumerate(case["sends"]):
         evs = per[i]
         sig = dict(send=i)
         if any(e[0] == "base" for e in evs):
             fail("a hook that the middleware class does not override was invoked", sig, evs)
             continue
+        bad_await = False
+        for k, e in enumerate(evs):
+            if e[0] == "hook" and not (k + 1 < len(evs) and evs[k + 1][0] == "hook.exit" and evs[k + 1][1:3] == e[1:3]):
+                bad_await = True
+        if bad_await:
+            fail("a hook was not run to completion before the next step", sig, evs)
+            continue
         kick = S.get("kick", "ok")
         pre = [e[2] for e in evs if e[0] == "hook" and e[1] == "pre_send"]
         post = [e[2] for e in evs if e[0] == "hook" and e[1] == "post_send"]
-        wpre = [k for k, _ in class_hooks(case, "pre_send")]
-        wpost = [k for k, _ in class_hooks(case, "post_send")]
+        # the middlewares of the broker the kicker points at WHEN this send is made (indices: 100 * broker + position)
+        wpre = [k for k, _ in stack_hooks(cxs[i], "pre_send")]
+        wpost = [k for k, _ in stack_hooks(cxs[i], "post_send")]
         hook_crash = any(e[0] == "crash" and e[1] == "CustomError" for e in evs)
         if hook_crash:
             if pre != wpre[:len(pre)] or post != wpost[:len(post)]:
@@ -605,7 +687,9 @@ def oracle_c10_send(case, per, fail):
             continue
         kicks = [e for e in evs if e[0] == "kick"]
         names = [e[1] if e[0] == "hook" else e[0] for e in evs if e[0] in ("hook", "kick", "sent", "crash")]
-        if kick == "ok":
+        if any(len(e) > 3 and e[3] != cxs[i]["b"] for e in kicks):
+            fail("the message was kicked into a broker that is not the kicker's current one", sig, evs)
+        elif kick == "ok":
             if len(kicks) != 1 or (kicks[0][1], ckey(kicks[0][2])) != cur:
                 fail("broker did not receive exactly the message produced by the pre_send chain", sig, evs)
             elif post != wpost:
@@ -663,6 +747,10 @@ def gen_mws(r, tbl, side, p_raise=0.05):
             if r.random() >= .6:
                 continue
             h = {"async": r.random() < .5, "susp": g_susp(r)}
+            if r.random() < AW_P:
+                # an "async" hook that is not an `async def`: a plain function returning a Future / Task / object with
+                # __await__ / coroutine object - the pipeline must wait for it exactly like for a coroutine function
+                h.update({"async": True, "aw": r.choice(AW_STYLES)})
             if r.random() < .1:
                 h.update(inst=True, act="keep")
                 s[name] = h
@@ -691,6 +779,9 @@ def gen_mws(r, tbl, side, p_raise=0.05):
     return out
 
 
+AW_P = 0.08        # fraction of the hooks / ack callables that return a non-coroutine awaitable
+LATE_P = 0.2       # fraction of the receive cases in which the broker gets things after its Receiver was constructed
+CHAIN_P = 0.25     # fraction of the send cases in which sends are consecutive steps on one kicker object
 SHAPE_P = 0.3      # fraction of the middlewares whose hooks are not all defined on a direct subclass of TaskiqMiddleware
 
 
@@ -772,7 +863,8 @@ def gen_recv(r, focus="c02", allow_d10=True):
         k = r.random()
         kind = "ok" if k < .86 else "bad" if k < .93 else "unknown"
         M = dict(kind=kind, id=ids[i], labels=r.randrange(len(tbl)) if r.random() < .6 else r.choice([0, 1, 2]),
-                 ackable=r.choice(["sync", "async", "async", "sync", "none"]), ack_susp=g_susp(r), arrive=g_susp(r),
+                 ackable=r.choice(["sync", "async", "async", "sync", "none"]) if r.random() >= AW_P else
+                 r.choice(["future", "task", "obj"]), ack_susp=g_susp(r), arrive=g_susp(r),
                  style="async" if r.random() < .65 else "sync", dep=r.choice(["none", "none", "ok", "ok", "fail"]),
                  dep_async=r.random() < .5, dep_susp=g_susp(r), save_ok=r.random() < .75, save_susp=g_susp(r))
         if kind == "bad":
@@ -790,6 +882,8 @@ def gen_recv(r, focus="c02", allow_d10=True):
             M["segs"] = r.choice([[], [], [r.randint(1, 6)], [r.randint(1, 5), r.randint(1, 5)]])
         msgs.append(M)
     case["msgs"] = msgs
+    if r.random() < LATE_P:
+        case["late"] = gen_late(r, case)
     if not allow_d10:
         for M in msgs:   # finding D10 (sync function raising GeneratorExit) lives in the corpus, not in the random stream
             if M["style"] == "sync" and M["out"] == {"raise": 8}:
@@ -818,6 +912,30 @@ def gen_recv(r, focus="c02", allow_d10=True):
     return case
 
 
+def gen_late(r, case):
+    """late binding on the receive side (driver: run_recv): what the broker is given only after its Receiver exists.
+    style = how: attribute assignment / add_middlewares, the with_* builders, or a WORKER_STARTUP handler run by
+    broker.startup() (what the worker does: Receiver(...) first, startup inside listen())."""
+    late = dict(style=r.choice(["assign", "with", "with", "startup", "startup"]))
+    if late["style"] == "startup":
+        late["handler_async"] = r.random() < .5
+    k = r.random()
+    if k < .75:
+        # before: the broker's default (dummy) backend, or an earlier recording backend
+        late["backend"] = r.choice(["default", "default", "rec"])
+    if case["mws"] and r.random() < .6:
+        late["mws_before"] = r.randrange(len(case["mws"]))
+    if r.random() < .3:
+        late["formatter"] = True
+    if r.random() < .3:
+        late["tasks"] = True
+    if r.random() < .3:
+        late["swap_at"] = r.randint(0, 8)      # the backend is replaced (again) while messages are in flight
+    if len(late) == 1 + ("handler_async" in late):
+        late["backend"] = "default"
+    return late
+
+
 def gen_send(r):
     tbl = gen_labels(r, strs_only=True)
     ns = r.choice([1, 2, 2, 3, 4, 6])
@@ -827,22 +945,114 @@ def gen_send(r):
         case["sends"].append(dict(id=ids[i], labels=r.randrange(len(tbl)), arrive=g_susp(r), kick_susp=g_susp(r),
                                   kick=r.choice(["ok", "ok", "ok", "ok", "kick_fail", "dumps_fail", "kick_fail_broker",
                                                  "kick_fail_sub", "kick_fail_send"])))
+    if r.random() < CHAIN_P:
+        gen_chains(r, case)
     return case
+
+
+def gen_chains(r, case):
+    """turn the sends of a send case into steps on shared kicker objects (driver: run_send).  One to three brokers with
+    their own middleware stacks; a chain = 2-4 consecutive sends on ONE AsyncKicker, between which the kicker is
+    re-pointed (with_broker), re-labelled (with_labels), or its broker gets more middlewares (add_middlewares /
+    with_middlewares; only when the whole case is one chain, so that "the stack at that send" is scenario arithmetic).
+    Sends left over stay loose (fresh kicker each, any broker) and run concurrently with the chains."""
+    tbl, sends = case["labels"], case["sends"]
+    nb = r.choice([1, 2, 2, 3])
+    case["brokers"] = [gen_mws(r, tbl, "send", p_raise=.06) for _ in range(nb - 1)]
+    ns = len(sends)
+    if ns < 2:
+        ids = [S["id"] for S in sends]
+        for _ in range(r.choice([1, 2, 3])):
+            sends.append(dict(id=r.choice([x for x in range(10) if x not in ids]), labels=r.randrange(len(tbl)),
+                              arrive=g_susp(r), kick_susp=g_susp(r),
+                              kick=r.choice(["ok", "ok", "ok", "kick_fail", "dumps_fail"])))
+            ids.append(sends[-1]["id"])
+        ns = len(sends)
+    single = ns <= 4 and r.random() < .6          # the whole case is one chain
+    i, c = 0, 0
+    while i < ns:
+        n = ns if single else r.choice([1, 2, 2, 3, 4])
+        n = min(n, ns - i)
+        if n < 2:
+            sends[i]["broker"] = r.randrange(nb)
+            i += 1
+            continue
+        b = r.randrange(nb)
+        labels = typed(tbl[sends[i]["labels"]])
+        sends[i].update(chain=c, broker=b)
+        for j in range(i + 1, i + n):
+            S, op = sends[j], {}
+            k = r.random()
+            if nb > 1 and k < .6:
+                b = r.choice([x for x in range(nb) if x != b])
+                op["broker"] = b
+            elif single and k < .9:
+                op["add_mws"] = gen_mws(r, tbl, "send", p_raise=.06)[:2] or gen_mws(r, tbl, "send", p_raise=.06)[:1]
+                op["via_with"] = r.random() < .5
+            if r.random() < .3:
+                op["labels_add"] = r.choice([{"a": "w"}, {"c": "v"}, {"a": "x", "timeout": "3"}])
+                labels = {**labels, **op["labels_add"]}
+            # the label dict of this step's message: the kicker's labels as the chain left them
+            if labels not in [typed(d) for d in tbl]:
+                tbl.append(dict(labels))
+            S["labels"] = [typed(d) for d in tbl].index(labels)
+            S.update(chain=c, op=op)
+        i += n
+        c += 1
+    if not any(S.get("chain") is not None for S in sends):
+        del case["brokers"]
+        for S in sends:
+            S.pop("broker", None)
 
 
 # ------------------------------------------------------------------------------------- distribution
 def count_shapes(rep, case, per):
     """class shapes of the stack, and for every hook that FIRED where in the class hierarchy it is defined"""
-    for s in case["mws"]:
-        sh = s.get("shape") or {}
-        rep.count("mw-class:" + sh.get("kind", "direct"))
-        if sh.get("shadow"):
-            rep.count("mw-class:has-shadowed-base-hook")
+    stacks = final_stacks(case)
+    for st in stacks:
+        for s in st:
+            sh = s.get("shape") or {}
+            rep.count("mw-class:" + sh.get("kind", "direct"))
+            if sh.get("shadow"):
+                rep.count("mw-class:has-shadowed-base-hook")
     for evs in per:
         for e in evs:
-            if e[0] == "hook" and 0 <= e[2] < len(case["mws"]):
-                sh = case["mws"][e[2]].get("shape") or {}
+            if e[0] == "hook" and 0 <= e[2] // 100 < len(stacks) and e[2] % 100 < len(stacks[e[2] // 100]):
+                spec = stacks[e[2] // 100][e[2] % 100]
+                sh = spec.get("shape") or {}
                 rep.count("hook-defined-on:" + (sh.get("at") or {}).get(e[1], "leaf") + (",twin" if sh.get("twin") else ""))
+                h = spec.get(e[1]) or {}
+                rep.count("hook-style:" + (h.get("aw") or ("async-def" if h.get("async") else "def")))
+
+
+def count_chains(rep, case):
+    """sends that are consecutive steps on one kicker object, and what changed between two steps"""
+    sends = case["sends"]
+    if not any(S.get("chain") is not None for S in sends):
+        rep.count("send-case:fresh-kicker-per-send")
+        return
+    rep.count("send-case:kicker-reused(chain)")
+    rep.count("send-brokers:%d" % (1 + len(case.get("brokers") or [])))
+    cxs = send_ctx(case)
+    n, prev = {}, {}
+    for S, cx in zip(sends, cxs):
+        c = S.get("chain")
+        if c is None:
+            rep.count("send-step:loose(fresh kicker)")
+            continue
+        n[c] = n.get(c, 0) + 1
+        if c in prev:
+            op = S.get("op") or {}
+            what = [k for k in ("broker", "add_mws", "labels_add") if op.get(k) not in (None, [], {})]
+            rep.count("send-step:reuse:" + ("+".join({"broker": "with_broker", "add_mws": "add_middlewares",
+                                                        "labels_add": "with_labels"}[k] for k in what) or "unchanged"))
+            if [own_hooks(x) for x in prev[c]["stack"]] != [own_hooks(x) for x in cx["stack"]]:
+                rep.count("send-step:reuse:override-masks-differ-from-previous-step")
+        else:
+            rep.count("send-step:first-of-chain")
+        prev[c] = cx
+    for c, k in n.items():
+        rep.count("send-chain-length:%d" % k)
 
 
 def count_recv(rep, case, per, late):
@@ -853,9 +1063,21 @@ def count_recv(rep, case, per, late):
         rep.count("redelivery(same task id, concurrent)")
     rep.count("stack:%d" % len(case["mws"]))
     count_shapes(rep, case, per)
+    late_b = case.get("late")
+    if late_b:
+        rep.count("late-binding(after Receiver()):case")
+        rep.count("late-binding:style:" + late_b["style"])
+        for k in ("backend", "formatter", "tasks", "swap_at", "mws_before"):
+            if late_b.get(k) is not None and late_b.get(k) is not False:
+                rep.count("late-binding:" + {"backend": "result-backend(before:%s)" % late_b.get("backend"),
+                                             "formatter": "formatter", "tasks": "tasks-registered",
+                                             "swap_at": "result-backend-swapped-mid-run",
+                                             "mws_before": "middlewares-added"}[k])
     for i, M in enumerate(case["msgs"]):
         evs = per[i]
         rep.count("kind:" + M["kind"])
+        if late_b and late_b.get("backend") and any(e[0] == "save.enter" for e in evs):
+            rep.count("late-binding:result-stored-in-late-bound-backend")
         if M["kind"] != "ok":
             continue
         rep.count("ack_type:" + at)
@@ -946,6 +1168,7 @@ def explore(ctx, rep, pid, cases, label, oracles, nontrivial):
             count_shapes(rep, c, per)
             for S in c["sends"]:
                 rep.count("kick:" + S.get("kick", "ok"))
+            count_chains(rep, c)
             for evs in per:
                 rep.count("send-branch:" + ("sent" if any(e[0] == "sent" for e in evs) else
                                             "crash:" + [e for e in evs if e[0] == "crash"][0][1]))
